@@ -280,6 +280,19 @@ func TestC13(t *testing.T) {
 				c.Instances = append(c.Instances, genC15Instance(t, dd, 3))
 			}
 		}
+		if n(3, "longenum") == 0 {
+			// an enum long enough for whatever index or cache an implementation may build lazily
+			e := &jv.V{K: jv.Arr}
+			for i, k := 0, 16+n(10, "enumlen"); i < k; i++ {
+				if i%3 == 0 {
+					e.A = append(e.A, jv.StrV(fmt.Sprintf("v%d", i)))
+				} else {
+					e.A = append(e.A, jv.NumV(fmt.Sprint(i)))
+				}
+			}
+			c.Docs = append(c.Docs, jv.ObjV(jv.Member{K: "properties", V: jv.ObjV(jv.Member{K: "k", V: jv.ObjV(jv.Member{K: "enum", V: e})})}, jv.Member{K: "items", V: jv.ObjV(jv.Member{K: "enum", V: e.Clone()})}))
+			c.Instances = append(c.Instances, jv.ObjV(jv.Member{K: "k", V: jv.NumV("7")}), jv.ArrV(jv.StrV("v3"), jv.NumV("4"), jv.StrV("nope")), jv.ObjV(jv.Member{K: "k", V: jv.StrV("v15")}))
+		}
 		if n(2, "dynamic") == 0 {
 			c.Dynamic = genC06(t)
 			c.Instances = append(c.Instances, c.Dynamic.Calls...)
